@@ -186,3 +186,63 @@ Fixpoint hx (s : string) : list N :=
   | String a (String b r) => (16 * hexval a + hexval b) :: hx r
   | _ => []
   end.
+
+(** * Stores as compact strings (numeral-heavy list literals parse slowly): comma-terminated hex
+    numbers, decoded and parsed inside Coq *)
+Fixpoint nums_go (s : string) (acc : N) (out : list N) : list N :=
+  match s with
+  | EmptyString => rev out
+  | String c r => if Ascii.eqb c ","%char then nums_go r 0 (acc :: out) else nums_go r (16 * acc + hexval c) out
+  end.
+Definition nums (s : string) : list N := nums_go s 0 [].
+
+Definition pstep (A : Type) := list N -> option (A * list N).
+Fixpoint p_many {A} (p : pstep A) (n : nat) (l : list N) : option (list A * list N) :=
+  match n with
+  | O => Some ([], l)
+  | S n' => match p l with
+            | Some (x, r) => match p_many p n' r with Some (xs, r') => Some (x :: xs, r') | None => None end
+            | None => None
+            end
+  end.
+Definition p_counted {A} (p : pstep A) : pstep (list A) :=
+  fun l => match l with n :: r => p_many p (N.to_nat n) r | [] => None end.
+Definition p_loc : pstep loc := fun l => match l with m :: s :: r => Some (L m s, r) | _ => None end.
+Definition p_addr : pstep addr := fun l => match l with i :: m :: r => Some (A i m, r) | _ => None end.
+Definition to_prior3 {T} (l : list T) : prior3 T :=
+  match l with [a] => P1 a | [a; b] => P2 a b | _ => P0 end.
+Definition p_cmd : pstep scmd :=
+  fun l => match l with
+           | i :: pt :: pn :: r =>
+             match p_counted p_addr r with
+             | Some (ps, pl1 :: dl :: r') =>
+               Some (mk_scmd i (match pt with 0 => PMerge | 1 => PBasic pn | 2 => PFinalize | _ => PInit end)
+                             (to_prior3 ps) (if pl1 =? 0 then None else Some (pl1 - 1)) dl, r')
+             | _ => None
+             end
+           | _ => None
+           end.
+Definition p_seg : pstep seg :=
+  fun l => match l with
+           | i :: f :: r =>
+             match p_counted p_loc r with
+             | Some (pr, r1) =>
+               match p_counted p_loc r1 with
+               | Some (sk, r2) =>
+                 match p_counted p_cmd r2 with
+                 | Some (cs, r3) => Some (mk_seg i f cs (to_prior3 pr) sk, r3)
+                 | None => None
+                 end
+               | None => None
+               end
+             | None => None
+             end
+           | _ => None
+           end.
+Definition p_head : pstep (N * loc) := fun l => match l with i :: m :: s :: r => Some ((i, L m s), r) | _ => None end.
+(** the empty store stands for a string that does not parse (the comparison then fails) *)
+Definition store_of (s : string) : store :=
+  match p_counted p_seg (nums s) with
+  | Some (segs, r) => match p_counted p_head r with Some (hs, _) => mk_store segs hs | None => mk_store [] [] end
+  | None => mk_store [] []
+  end.
